@@ -113,6 +113,13 @@ def postprocess_attributes(
             f"found {len(exponents)} != {len(coefficients_)}"
         )
 
+    # (before any pruning: a repeated exponent is rejected whatever its coefficient)
+    exponents_, count = numpy.unique(exponents, return_counts=True, axis=0)
+    if numpy.any(count > 1):
+        raise PolynomialConstructionError(
+            f"Duplicate exponent keys found: {exponents_[count > 1][0]}"
+        )
+
     if retain_coefficients is None:
         retain_coefficients = numpoly.get_options()["retain_coefficients"]
     if not retain_coefficients and coefficients_:
@@ -145,12 +152,6 @@ def postprocess_attributes(
             default = numpoly.get_options()["default_varname"]
             names = numpoly.symbols(f"{default}:{exponents.shape[1]}").names
         exponents, names = remove_redundant_names(exponents, names)
-
-    exponents_, count = numpy.unique(exponents, return_counts=True, axis=0)
-    if numpy.any(count > 1):
-        raise PolynomialConstructionError(
-            f"Duplicate exponent keys found: {exponents_[count > 1][0]}"
-        )
 
     return numpy.asarray(exponents), list(coefficients_), names
 
